@@ -19,7 +19,7 @@ use serde::Serialize;
 use crate::eds::{AxisType, ExtendedDataSquare};
 use crate::nmt::NamespaceProof;
 use crate::row::{ROW_ID_SIZE, RowId};
-use crate::{DataAvailabilityHeader, Error, Result, Share, bail_validation};
+use crate::{DataAvailabilityHeader, Error, Result, Share, bail_validation, bail_verification};
 
 pub use celestia_proto::shwap::Sample as RawSample;
 
@@ -126,14 +126,29 @@ impl Sample {
 
     /// verify sample with root hash from ExtendedHeader
     pub fn verify(&self, id: SampleId, dah: &DataAvailabilityHeader) -> Result<()> {
-        let root = match self.proof_type {
-            AxisType::Row => dah
-                .row_root(id.row_index())
-                .ok_or(Error::EdsIndexOutOfRange(id.row_index(), 0))?,
-            AxisType::Col => dah
-                .column_root(id.column_index())
-                .ok_or(Error::EdsIndexOutOfRange(0, id.column_index()))?,
+        let (root, index) = match self.proof_type {
+            AxisType::Row => (
+                dah.row_root(id.row_index())
+                    .ok_or(Error::EdsIndexOutOfRange(id.row_index(), 0))?,
+                id.column_index(),
+            ),
+            AxisType::Col => (
+                dah.column_root(id.column_index())
+                    .ok_or(Error::EdsIndexOutOfRange(0, id.column_index()))?,
+                id.row_index(),
+            ),
         };
+
+        // the proof must be for exactly the requested position on the axis
+        if self.proof.start_idx() != u32::from(index)
+            || self.proof.end_idx() != u32::from(index) + 1
+        {
+            bail_verification!(
+                "proof is for leaves {}..{}, expected leaf {index}",
+                self.proof.start_idx(),
+                self.proof.end_idx(),
+            );
+        }
 
         self.proof
             .verify_range(&root, &[&self.share], *self.share.namespace())
